@@ -147,6 +147,10 @@ class WebsocketSession(object):
                 sock.close()
                 sock = None
                 continue
+            except Exception:
+                # Not a socket error, don't leak the socket
+                sock.close()
+                raise
             break
         if sock is None:
             self._socket_fail('unable to connect')
